@@ -157,6 +157,10 @@ struct SimSink {
     uint64_t partials = 0, zeros = 0;
     int64_t err_pos = -1; int err_code = 0;  // error when got.size() == err_pos (once)
     size_t capacity = SIZE_MAX;              // -ENOMEM beyond this
+    // a second task scheduled at a seam point: when the sink driver is entered for the (intrude_at)-th time in this op, another piece of work that
+    // uses the library on objects of its own runs to completion first (nothing it does may be visible to the interrupted call, and vice versa)
+    int64_t intrude_at = -1; void (*intruder)(void *) = nullptr; void *intruder_arg = nullptr;
+    void maybe_intrude() { if (intruder && intrude_at >= 0 && (int64_t)calls == intrude_at + 1) { void (*f)(void *) = intruder; intruder = nullptr; f(intruder_arg); } }
     // optional: the octets really go into one of the library's own sinks (sink_to_buffer); 'got' is read back from that buffer
     Sink *inner = nullptr; ByteBuffer *inner_bb = nullptr;
     ssize_t pass_on(const void *buf, size_t k) {
@@ -172,6 +176,7 @@ struct SimSink {
     ssize_t chunk(const void *buf, size_t n) {
         ++calls;
         c->step_budget();
+        maybe_intrude();
         ssize_t rv;
         int64_t s;
         if (err_pos >= 0 && (int64_t)got.size() == err_pos) {
@@ -200,6 +205,7 @@ struct SimSink {
     int octet(unsigned char ch) {
         ++calls;
         c->step_budget();
+        maybe_intrude();
         int rv;
         int64_t s;
         if (err_pos >= 0 && (int64_t)got.size() == err_pos) {
